@@ -1098,8 +1098,10 @@ Proof. vm_compute. auto. Qed.
 (* ---------- the resync worker (syncTask after a failed pod delete; round 8) ---------- *)
 (* whatever the API server holds, with or without the pod disappearing between the worker's GET and its
    cache.UpdatePod: syncTask never ADDS a pod to the job cache (UpdatePod refuses a pod the cache does not
-   hold), the job status and the API server's other pods are untouched; and a pod the API server no longer
-   has is not in the cache afterwards *)
+   hold), the job status and the API server's other pods are untouched.  STEP-LEVEL facts read off the
+   definition of the op (third audit E18): not counted as a property theorem; the history-level consequence
+   (after a raced resync and the following syncs the pod set is the spec's) is shown on one world only
+   (resync_example) and checked on the real controller by laws 201 / 221 in the resync family *)
 Theorem resync_adds_no_pod : forall w t i race w' e wr,
   step w (OResyncPod t i race) = (w', e, wr) ->
   incl (pod_ids (v_pods w')) (pod_ids (v_pods w)) /\ incl (pod_ids (w_pods w')) (pod_ids (w_pods w)) /\
@@ -1132,3 +1134,21 @@ Example resync_example :
                  OSyncPods; OSyncPg; OSyncJob; OReq (mkReq EOutOfSync None None None 0 0 1) []]) =
   [mkPod 1 0 PRunning false false; mkPod 1 1 PPending false false].
 Proof. vm_compute. reflexivity. Qed.
+
+(* law 212 from the law's own guard (third audit E17): for a well-formed spec with fewer than 12 tasks the
+   accepted value is the greedy amount over the stable descending-priority order *)
+Theorem law_minres_stable_amount : forall sp xs got,
+  well_formed sp = true -> law_minres_stable sp xs got = true -> (length (s_tasks sp) < 12)%nat ->
+  let l := ptasks sp xs in let o := sort_prio l in
+  got = (if s_min sp <? total_min l then rsum (greedy (map pt_replicas o) (s_min sp)) o
+         else let own := greedy (map own_min o) (s_min sp) in
+              radd (rsum own o) (rsum (greedy (map spare o) (s_min sp - zsum own)) o)) /\
+  desc_prio o = true /\ Permutation o l /\ forall p, filter (same_prio p) o = filter (same_prio p) l.
+Proof.
+  intros sp xs got Hw H Hlen l o.
+  destruct (law_minres_stable_sound sp xs got H Hlen) as (E & A & B & C). fold l o in E, A, B, C.
+  split; [|auto]. rewrite E. apply calc_min_resources_amount.
+  - eapply Permutation_Forall; [apply Permutation_sym; exact B|apply well_formed_ptask_ok; exact Hw].
+  - unfold well_formed in Hw. apply andb_true_iff in Hw. destruct Hw as [Hw _].
+    apply andb_true_iff in Hw. destruct Hw as [_ Hw]. apply Z.leb_le in Hw. exact Hw.
+Qed.
